@@ -27,7 +27,7 @@ REQUIRED = {"grammar.fault_free": {"quick": 100, "thorough": 5000}, "grammar.und
             "fault.before_phase_suppresses_body": {"quick": 800, "thorough": 60000},
             "fault.run_fails": {"quick": 3000, "thorough": 200000}, "model.hook_sequence": {"quick": 80, "thorough": 4000},
             "dry_run.no_hooks": {"quick": 5, "thorough": 300}}
-REQUIRED_SEEN = {"fault_hook": ["before_all", "after_all", "before_feature", "after_feature", "before_rule", "after_rule",
+REQUIRED_SEEN = {"hook_decoration": ["capture", "plain"], "fault_hook": ["before_all", "after_all", "before_feature", "after_feature", "before_rule", "after_rule",
                                 "before_scenario", "after_scenario", "before_step", "after_step", "before_tag", "after_tag"],
                  "tag_hook_owner_kind": ["feature", "rule", "scenario"]}
 EXHAUSTIVE = True
@@ -405,14 +405,28 @@ def run(spec, mon):
         gen = {"outcomes": outs, "p_tag": 0.5, "p_nonpass": 0.2, "max_features": 2, "max_items": 2, "max_steps": 2,
                "p_empty_examples": 0.0, "p_stepless": 0.0, "p_param_tag": 0.4}
         case = RB.gen_case(rng, gen=gen, p_stop=0.25, p_dry=0.08, p_noskipped=0.3, p_user_skip=0.15)
-        run_program(lab, mon, case, rng, tier, sample=(i == 0 and spec["shard"] == 0))
-        for _ in range(3):
-            fault_then_clean_run(lab, mon, case, rng)
+        lab.capture_hooks = None
+        if i % 3 == 1:
+            # some hooks are decorated with behave's @capture (log capture for environment functions): a decorated hook is a
+            # hook like any other -- what it raises is a hook failure
+            from ..lab.inproc import HOOK_NAMES
+            lab.capture_hooks = set(rng.sample(HOOK_NAMES, rng.randint(3, len(HOOK_NAMES))))
+            case["capture_decorated_hooks"] = sorted(lab.capture_hooks)
+            mon.seen("hook_decoration", "capture")
+        else:
+            mon.seen("hook_decoration", "plain")
+        try:
+            run_program(lab, mon, case, rng, tier, sample=(i == 0 and spec["shard"] == 0))
+            for _ in range(3):
+                fault_then_clean_run(lab, mon, case, rng)
+        finally:
+            lab.capture_hooks = None
 
 
 def replay(case, mon):
     from ..lab.inproc import RunLab
     lab = RunLab()
+    lab.capture_hooks = set(case.get("capture_decorated_hooks") or ()) or None
     pred = runmodel.predict(case["program"], case["cfg"])
     struct = Struct(case["program"], pred)
     base = {k: v for k, v in case.items() if k != "hook_fault"}
